@@ -134,15 +134,17 @@ func (c *Ctx) crashFamily() *simpleVerdict {
 		{"t", func() mv { return h.variant("Boolean", true) }}, {"n", func() mv { return h.variant("Null", nil) }},
 		{"ts", func() mv { return h.variant("TimeSpan", int64(1500)) }}, {"dt", func() mv { return h.variant("DateTime", "t0") }},
 		{"arr", arr(1, 2)}, {"emp", arr()}, {"obj", func() mv { return h.variant("Object", "o") }},
+		// text made of characters that are special in patterns and formats
+		{"meta", func() mv { return h.variant("String", lit("f(x[*+?{2,1}\\")) }}, {"pct", func() mv { return h.variant("String", lit("%_%s%d")) }},
 	}
 	var exprs []string
 	for _, a := range vals {
 		for _, b := range vals {
 			for _, op := range gxBinaryLexemes {
-				if op == "LIKE" {
-					continue
-				}
 				exprs = append(exprs, a.name+" "+op+" "+b.name)
+				if op == "LIKE" {
+					exprs = append(exprs, a.name+" NOT LIKE "+b.name)
+				}
 			}
 			exprs = append(exprs, a.name+" [ "+b.name+" ]", a.name+" NOT IN "+b.name)
 		}
